@@ -323,6 +323,13 @@ def run(prog, chk):
     # ------------------------------------------------------------------ C13.f
     pst = [s for s in q.stores(w) if q.no_casts(w.r(s.lhs)) == "*postponed"]
     for s in pst:
+        rhs_ = s.rhs
+        rn_ = w.nodes[w.strip(rhs_)]
+        if rn_["k"] == "DeclRefExpr" and rn_["ref"].get("dk") == "local":
+            rd_ = q.reaching_def(w, rn_["ref"]["id"], s.node)      # the value handed to a helper that stores it (`report(postponed, 0)`)
+            if rd_ is not None:
+                rhs_ = rd_
+        s = type(s)(*[rhs_ if fld_ == "rhs" else getattr(s, fld_) for fld_ in s._fields]) if hasattr(s, "_fields") else s
         t = q.no_casts(w.r(s.rhs))
         after_app = w.find_path(w.entry_pos(), {w.node_pos(s.node)}, avoid=q.pos_of(w, apps_all), after_src=False) is None
         if (after_app and t == "this->_sendBuffer.size()") or (not after_app and fin.eval_expr(w, s.rhs, {}) == 0):
